@@ -224,6 +224,7 @@ def run(ctx: Ctx) -> None:
     DELETE_CASES.clear()
     asyncio.run(end_to_end(ctx, 150 if thorough else 40))
     delete_correspondence(ctx, built)
+    lifespan_table_effective(ctx)
     deferred_correspondence(ctx, built, 120 if ctx.tier == "thorough" else 40)
     array_pick_correspondence(ctx, built, 600 if ctx.tier == "thorough" else 200)
     gw.run_async(config_updates, ctx, 60 if ctx.tier == "thorough" else 16)
@@ -630,6 +631,60 @@ def array_pick_correspondence(ctx: Ctx, built: bool, trials: int) -> None:
     ctx.obligation("correspondence:array-element-selection", not bad and len(rows) == len(impl), "correspondence",
                    f"{len(bad)} of {len(impl)} arrays differ; first: {cases[bad[0]]}: model reads {rows[bad[0]]}, the real _msg_value_msg {impl[bad[0]]}" if bad or len(rows) != len(impl)
                    else f"{len(impl)} array payloads (a zone absent, once, twice; keys missing from some elements): the real _msg_value_msg reads what M_Store.pick reads")
+
+
+def lifespan_table_effective(ctx: Ctx) -> None:
+    """"Each message has a lifetime fixed by its kind": every entry of the lifetime table that is selected by a class of OpenTherm data-ids
+    (`int(payload[4:6], 16) in XXX_DATA_IDS: return <lifetime>`, read from the source text of pkt_lifespan) has its effect -- a message of
+    each data-id of the class gets that lifetime (the first class, in source order, that lists the id)."""
+    import ast  # noqa: PLC0415
+    import inspect  # noqa: PLC0415
+    import textwrap  # noqa: PLC0415
+
+    import ramses_tx.packet as P  # noqa: PLC0415
+
+    try:
+        fn = ast.parse(textwrap.dedent(inspect.getsource(P.pkt_lifespan))).body[0]
+    except Exception as err:  # noqa: BLE001
+        ctx.obligation("translator:lifetime-table-entries", False, "translator", f"pkt_lifespan cannot be read: {type(err).__name__}: {err}")
+        return
+    entries = []
+    for node in ast.walk(fn):
+        if isinstance(node, ast.If) and node.body and isinstance(node.body[0], ast.Return) and node.body[0].value is not None:
+            names = [n.id for n in ast.walk(node.test) if isinstance(n, ast.Name) and n.id.endswith("_DATA_IDS")]
+            if names and any(isinstance(c, ast.Compare) and any(isinstance(o, ast.In) for o in c.ops) for c in ast.walk(node.test)):
+                entries.append((node.lineno, names[0], node.body[0].value))
+    entries.sort()
+    ctx.obligation("translator:lifetime-table-entries", len(entries) >= 2, "translator",
+                   f"{len(entries)} data-id classes found in pkt_lifespan" if len(entries) >= 2 else "pkt_lifespan no longer selects lifetimes by classes of OpenTherm data-ids as `... in XXX_DATA_IDS: return ...`")
+    seen = set()
+    for _, name, expr in entries:
+        try:
+            want = eval(compile(ast.Expression(expr), "<lifespan>", "eval"), vars(P))  # noqa: S307
+            ids = sorted(int(i, 16) if isinstance(i, str) else int(i) for i in getattr(P, name))
+        except Exception as err:  # noqa: BLE001
+            ctx.obligation("translator:lifetime-table-entries", False, "translator", f"{name}: {type(err).__name__}: {err}")
+            continue
+        for i in ids:
+            if i in seen:
+                continue
+            seen.add(i)
+            line = f"045 RP --- 10:048122 18:006402 --:------ 3220 005 00C0{i:02X}0000"
+            try:
+                got = Packet_from(line)._lifespan
+            except Exception as err:  # noqa: BLE001
+                ctx.dist[f"lifetime-table:packet-rejected:{type(err).__name__}"] += 1
+                continue
+            ctx.case(("lifetime-entry", name, i), True, "lifetime-table-entry")
+            if got != want:
+                ctx.violation(f"lifetime-table-entry-without-effect:3220:{name}", f"an OpenTherm message with data-id {i:02X} (listed in {name}) gets the lifetime {got}, its table entry says {want}",
+                              {"frame": line, "lifetime": str(got), "table_entry": str(want), "class": name}, "input")
+
+
+def Packet_from(line):
+    from ramses_tx.packet import Packet  # noqa: PLC0415
+
+    return Packet.from_port(T0, line)
 
 
 def replay(case: dict) -> int:
